@@ -33,8 +33,8 @@ fn peek_stub(_pid: nix::unistd::Pid, addr: nix::sys::ptrace::AddressType) -> nix
 fn check_ptrace<const N: usize>() {
     let lo: usize = kani::any();
     let hi: usize = kani::any();
-    // a readable mapping is at least one word long (pages are 4 KiB) and does not wrap
-    kani::assume(lo <= hi && hi - lo >= 8 && hi <= usize::MAX - 16);
+    // a readable mapping is at least two words long (real ones are multiples of 4 KiB) and does not wrap
+    kani::assume(lo <= hi && hi - lo >= 16 && hi <= usize::MAX - 16);
     unsafe { LO = lo; HI = hi; SEED = kani::any(); }
     let src: usize = kani::any();
     kani::assume(src <= usize::MAX - 64);
@@ -84,7 +84,7 @@ fn vk_ptrace_read_len17() { check_ptrace::<17>(); }
 fn vk_read_to_vec_len_matches() {
     let lo: usize = kani::any();
     let hi: usize = kani::any();
-    kani::assume(lo <= hi && hi - lo >= 8 && hi <= usize::MAX - 16);
+    kani::assume(lo <= hi && hi - lo >= 16 && hi <= usize::MAX - 16);
     unsafe { LO = lo; HI = hi; SEED = kani::any(); }
     let src: usize = kani::any();
     kani::assume(src <= usize::MAX - 64);
